@@ -7,6 +7,9 @@
 #[path = "../../../../harness/src/util.rs"]
 #[allow(dead_code)]
 mod util;
+#[path = "../../../../harness/src/wire.rs"]
+#[allow(dead_code)]
+mod wire;
 #[path = "../../../../harness/src/idl.rs"]
 #[allow(dead_code)]
 mod idl;
